@@ -663,8 +663,16 @@ CMR_ERROR CMRtuTest(CMR* cmr, CMR_CHRMAT* matrix, bool* pisTotallyUnimodular, CM
     double remainingTime = timeLimit - ((clock() - totalClock) * 1.0 / CLOCKS_PER_SEC);
 
     CMR_SEYMOUR_NODE* root = NULL;
-    CMR_ERROR error = CMRseymourDecompose(cmr, matrix, params->ternary, &root, &(params->seymour),
+    CMR_CHRMAT* support = NULL;
+    if (!params->ternary)
+    {
+      /* A binary decomposition tree belongs to the support matrix; the signs are checked by Camion's test. */
+      CMR_CALL( CMRchrmatSupport(cmr, matrix, &support) );
+    }
+    CMR_ERROR error = CMRseymourDecompose(cmr, support ? support : matrix, params->ternary, &root, &(params->seymour),
       stats ? &stats->seymour : NULL, remainingTime);
+    if (support)
+      CMR_CALL( CMRchrmatFree(cmr, &support) );
     if (error == CMR_ERROR_TIMEOUT)
     {
       assert( root == NULL);
